@@ -108,6 +108,16 @@ type TxSpec struct {
 	Hash  string
 }
 
+// SignerIdx is the index of the signing account among the chain's accounts (-1 if foreign).
+func (t *TxSpec) SignerIdx(c *Chain) int {
+	for i, a := range c.Accounts {
+		if a == t.Signer {
+			return i
+		}
+	}
+	return -1
+}
+
 // TxResult is the outcome of one delivered transaction.
 type TxResult struct {
 	Spec    *TxSpec
